@@ -492,12 +492,23 @@ impl PooledBuffer {
     /// Create a new pooled buffer of the specified size
     pub fn new(size: usize) -> Result<Self> {
         let pool = GLOBAL_POOLS.get_pool_for_size(size).clone();
+        let capacity = pool.config().chunk_size;
+
+        // The buffer is backed by exactly one chunk: a larger view would extend
+        // past the end of the block
+        if size > capacity {
+            return Err(ZiporaError::invalid_data(format!(
+                "buffer size {} exceeds the largest pool chunk size {}",
+                size, capacity
+            )));
+        }
+
         let chunk = pool.allocate()?;
 
         Ok(Self {
             ptr: chunk,
             len: size,
-            capacity: pool.config().chunk_size,
+            capacity,
             pool,
         })
     }
